@@ -8,6 +8,7 @@ structure St where
   toks : Array Token := #[]
   pool : PoolSys := PoolSys.init
   fd   : FdSys := FdSys.init
+  lt   : LtSys := LtSys.init
 
 def maxObj : Nat := 1000
 def maxVal : Nat := 1000000
@@ -22,16 +23,31 @@ def nat? (w : String) (bound : Nat) : Option Nat := do
   let n ← w.toNat?
   if n < bound then some n else none
 
-/-- `k:i,k:i,…` → pairs (invocation number, token index) -/
-def parseScript (w : String) (ntok : Nat) : Option (List (Nat × Nat)) :=
+/-- one callback action: `I` free token I · `aO` alloc object O · `c` clear · `uI.O` update token I -/
+def parseAct (w : String) (toks : Array Token) : Option CbAct :=
+  if w == "c" then some .clear
+  else if w.startsWith "a" then do pure (.alloc (← nat? (w.drop 1).toString maxObj))
+  else if w.startsWith "u" then
+    match (w.drop 1).toString.splitOn "." with
+    | [i, o] => do pure (.update (toks.getD (← nat? i toks.size) {}) (← nat? o maxObj))
+    | _ => none
+  else do pure (.free (toks.getD (← nat? w toks.size) {}))
+
+/-- `k:act,k:act,…` → (invocation number, action) -/
+def parseScript (w : String) (toks : Array Token) : Option (List (Nat × CbAct)) :=
   if w == "-" then some [] else
   (w.splitOn ",").mapM fun item =>
     match item.splitOn ":" with
-    | [k, i] => do pure (← nat? k 100000, ← nat? i ntok)
+    | [k, a] => do pure (← nat? k 100000, ← parseAct a toks)
     | _ => none
 
-def scriptFn (toks : Array Token) (ps : List (Nat × Nat)) : Nat → List Token :=
-  fun k => (ps.filter (·.1 = k)).map fun p => toks.getD p.2 {}
+def scriptFn (ps : List (Nat × CbAct)) : Nat → List CbAct :=
+  fun k => (ps.filter (·.1 = k)).map (·.2)
+
+/-- index of the first earlier token equal to each of `new` (tokens handed out twice) -/
+def countDups (old : Array Token) (new : List Token) : Nat :=
+  (new.foldl (fun (acc : Array Token × Nat) t =>
+    (acc.1.push t, if t.id ≠ 0 ∧ acc.1.any (· == t) then acc.2 + 1 else acc.2)) (old, 0)).2
 
 def sizeStr (c : Cab) : String := "size=" ++ toString c.size
 
@@ -83,21 +99,30 @@ def cabLine (s : St) (ws : List String) : Option (St × List String) :=
       some (s, ["B scan-stale=" ++ (if stale.length ≥ 100 then "100+" else if stale.length ≥ 10 then "10+" else if stale.length ≥ 1 then "1+" else "0"),
                 "P scan " ++ commaList vals])
   | ["each", scr] => do
-      let ps ← parseScript scr s.toks.size
-      let (c, visP) := s.cab.foreach (scriptFn s.toks ps)
+      let ps ← parseScript scr s.toks
+      let f := scriptFn ps
+      let newToks := s.cab.actTokens (s.cab.eachActs f)
+      let (c, visP) := s.cab.foreach f
       let vis := visP.map (·.2)
-      -- visiting order / reach under cross-removal depend on cell reuse: M line (see the harness)
+      -- visiting order / reach when callbacks change other entries depend on cell reuse: M line
       let sorted := (vis.toArray.qsort (· < ·)).toList
-      pure ({ s with cab := c }, [if c.count < s.cab.count then "B each-removed" else "B each-plain",
-                                  "P each " ++ (if ps.isEmpty then commaList (sorted.map toString) else "*") ++ " " ++ sizeStr c ++ " deadvisit=0",
-                                  "M order " ++ commaList (vis.map toString)])
+      let tags := (if c.count < s.cab.count then ["each-removed"] else ["each-plain"]) ++
+        (if ps.any (fun p => match p.2 with | .alloc _ => true | _ => false) then ["each-cb-alloc"] else []) ++
+        (if ps.any (fun p => p.2 == .clear) then ["each-cb-clear"] else []) ++
+        (if c.cells.length > s.cab.cells.length then ["each-cb-grew"] else [])
+      pure ({ s with cab := c, toks := s.toks ++ newToks.toArray },
+            ["B " ++ " ".intercalate tags,
+             "P each " ++ (if ps.isEmpty then commaList (sorted.map toString) else "*") ++ " " ++ sizeStr c ++
+               " deadvisit=0 dup=" ++ toString (countDups s.toks newToks),
+             "M order " ++ commaList (vis.map toString) ++ " toks=" ++
+               commaList (newToks.map fun t => toString t.id ++ "." ++ toString t.pos)])
   | _ => none
 
 def poolStatus (s : PoolSys) : String :=
   let vals := s.slots.map fun o => match o with | none => "-" | some (_, v) => toString v
   let st := s.pool.stat
   "P pool ctor=" ++ toString s.pool.ctor ++ " dtor=" ++ toString s.pool.dtor ++ " vals=" ++ ",".intercalate vals ++
-  " stat=" ++ toString st.allocT ++ "/" ++ toString st.freeT ++ "/" ++ toString st.peakA ++ "/" ++ toString st.peakF ++ " alias=0"
+  " stat=" ++ toString st.allocT ++ "/" ++ toString st.freeT ++ "/" ++ toString st.peakA ++ "/" ++ toString st.peakF ++ " alias=0 leaked=" ++ toString s.pool.leaked
 
 def poolLine (s : St) (ws : List String) : Option (St × List String) :=
   match ws with
@@ -122,6 +147,10 @@ def poolLine (s : St) (ws : List String) : Option (St × List String) :=
       let k ← if k == "max" then some sizeMax else nat? k 100000
       let (p, _) := s.pool.step (.renew k)
       pure ({ s with pool := p }, ["B pool-new", poolStatus p])
+  | ["drop", k] => do
+      let k ← if k == "max" then some sizeMax else nat? k 100000
+      let (p, _) := s.pool.step (.drop k)
+      pure ({ s with pool := p }, [if s.pool.liveBlocks.isEmpty then "B pool-drop-empty" else "B pool-drop-live", poolStatus p])
   | ["stat"] => some (s, [poolStatus s.pool])
   | _ => none
 
@@ -185,6 +214,80 @@ def fdLine (s : St) (ws : List String) : Option (St × List String) := do
   let f := s.fd.step op
   pure ({ s with fd := f }, ("B " ++ fdTag s.fd op) :: fdStatus s.fd f)
 
+def parseLt (ws : List String) : Option LtOp :=
+  let t (w : String) := nat? w nLtTags
+  let v (w : String) := nat? w nLtWs
+  match ws with
+  | ["tnew", i] => do pure (.tnew (← t i))
+  | ["tdel", i] => do pure (.tdel (← t i))
+  | ["tcpc", i, j] => do pure (.tcopy (← t i) (← t j))
+  | ["tmvc", i, j] => do pure (.tcopy (← t i) (← t j))
+  | ["tcpa", i, j] => do pure (.tassign (← t i) (← t j))
+  | ["tmva", i, j] => do pure (.tassign (← t i) (← t j))
+  | ["wnew", w] => do pure (.wnew (← v w))
+  | ["wtag", w, i] => do pure (.wtag (← v w) (← t i))
+  | ["wset", w, i] => do pure (.wtag (← v w) (← t i))
+  | ["wget", w, i] => do pure (.wtag (← v w) (← t i))
+  | ["wcpc", w, x] => do pure (.wcopyCtor (← v w) (← v x))
+  | ["wmvc", w, x] => do pure (.wmoveCtor (← v w) (← v x))
+  | ["wcpa", w, x] => do pure (.wcopyAssign (← v w) (← v x))
+  | ["wmva", w, x] => do pure (.wmoveAssign (← v w) (← v x))
+  | ["wswap", w, x] => do pure (.wswap (← v w) (← v x))
+  | ["wreset", w] => do pure (.wreset (← v w))
+  | _ => none
+
+/-- malformed = slot out of range or the two slots of a constructor coincide; a missing tag is `absent` -/
+def Tbox.C08.LtOp.wellFormed : LtOp → Bool
+  | .tcopy i j => i != j
+  | .wcopyCtor w v | .wmoveCtor w v => w != v
+  | _ => true
+
+def ltStatus (s : LtSys) : List String :=
+  let wsl := List.range nLtWs
+  let alive := String.join (wsl.map fun w => bit (s.isAlive w))
+  let nl := String.join (wsl.map fun w => bit (s.isNull w))
+  let tags := String.join ((List.range nLtTags).map fun i => bit (s.tagOf i).isSome)
+  let freed := (List.range s.details.length).filter fun d => match s.details[d]? with | some det => det.freed | none => false
+  let cnt := wsl.map fun w => match s.wOf w with
+    | none => "-"
+    | some d => match s.details[d]? with | some det => toString det.cnt | none => "?"
+  ["P lt alive=" ++ alive ++ " null=" ++ nl ++ " tags=" ++ tags ++ " freed=" ++ commaList (freed.map toString) ++
+     (if s.bad then " BAD" else ""),
+   "M cnt=" ++ ",".intercalate cnt]
+
+def ltTag (s : LtSys) (op : LtOp) : String :=
+  let rel (w : Nat) : String := match s.wOf w with
+    | none => "w-null"
+    | some d => match s.details[d]? with
+        | some det => if det.cnt = 1 then (if det.alive then "w-last-tag-alive" else "w-last-frees") else "w-shared"
+        | none => "w-?"
+  let trel (i : Nat) : String := match s.tagOf i with
+    | none => "t-empty"
+    | some d => match s.details[d]? with
+        | some det => if det.cnt = 0 then "t-frees" else "t-outlived-by-watchers"
+        | none => "t-?"
+  match op with
+  | .tnew i => "tnew-" ++ trel i
+  | .tdel i => "tdel-" ++ trel i
+  | .tcopy i _ => "tcopy-" ++ trel i
+  | .tassign _ _ => "tassign"
+  | .wnew w => "wnew-" ++ rel w
+  | .wtag w _ => "wtag-" ++ rel w
+  | .wcopyCtor w v => "wcpc-" ++ rel w ++ (if (s.wOf v).isNone then "-from-null" else "")
+  | .wmoveCtor w _ => "wmvc-" ++ rel w
+  | .wcopyAssign w v => if w = v then "wcpa-self" else "wcpa-" ++ rel w ++ (if (s.wOf v).isNone then "-from-null" else "")
+  | .wmoveAssign w v => if w = v then "wmva-self" else "wmva-" ++ rel w
+  | .wswap _ _ => "wswap"
+  | .wreset w => "wreset-" ++ rel w
+
+def ltLine (s : St) (ws : List String) : Option (St × List String) := do
+  let op ← parseLt ws
+  if ¬ op.wellFormed then none
+  if op.ok s.lt then
+    let l := s.lt.step op
+    pure ({ s with lt := l }, ("B " ++ ltTag s.lt op) :: ltStatus l)
+  else pure (s, ["B lt-absent", "P absent"])
+
 def stepLine (s : St) (line : String) : St × List String :=
   match words line with
   | [] => (s, [])
@@ -192,6 +295,7 @@ def stepLine (s : St) (line : String) : St × List String :=
   | "cab" :: ws => match cabLine s ws with | some r => r | none => (s, ["bad-op"])
   | "pool" :: ws => match poolLine s ws with | some r => r | none => (s, ["bad-op"])
   | "fd" :: ws => match fdLine s ws with | some r => r | none => (s, ["bad-op"])
+  | "lt" :: ws => match ltLine s ws with | some r => r | none => (s, ["bad-op"])
   | _ => (s, ["bad-op"])
 
 def main : IO Unit := runDriver ({} : St) stepLine
